@@ -126,11 +126,20 @@ def isScheme : Str → Bool
 def iriCharOK (c : Nat) : Bool :=
   0x20 < c && !([0x3c, 0x3e, 0x22, 0x7b, 0x7d, 0x7c, 0x5c, 0x5e, 0x60].contains c)
 
-/-- an absolute IRI as far as this fragment checks: a scheme, and only characters allowed in IRIs -/
+/-- an absolute IRI as far as this fragment checks: a scheme, only characters allowed in IRIs, at most one `#` -/
 def absIri (v : Str) : Bool :=
   match splitColon v with
-  | some (p, _) => isScheme p && v.all iriCharOK
+  | some (p, _) => isScheme p && v.all iriCharOK && (v.filter (· == 0x23)).length ≤ 1
   | none => false
+
+/-- a language tag of the shape `ALPHA{1,8} ("-" ALNUM{1,8})*` (BCP 47 well-formedness as far as RDF needs it) -/
+def subtagsOK : Bool → Nat → Str → Bool
+  | _, k, [] => 0 < k
+  | first, k, c :: cs =>
+    if c = 0x2d then 0 < k && subtagsOK false 0 cs
+    else (isAlpha c || (!first && isDigit c)) && k < 8 && subtagsOK first (k + 1) cs
+
+def langOK (l : Str) : Bool := subtagsOK true 0 l
 
 /-- gen-delims of RFC 3986 -/
 def endsGenDelim (v : Str) : Bool :=
@@ -250,7 +259,7 @@ def parseDef : Json → Option RawDef
         match getKey kLanguage ms with
         | none => some { id, typ, cont, lang := none, simple := false }
         | some .null => some { id, typ, cont, lang := some none, simple := false }
-        | some (.str l) => some { id, typ, cont, lang := some (some l), simple := false }
+        | some (.str l) => if langOK l then some { id, typ, cont, lang := some (some l), simple := false } else none
         | some _ => none
       | _, _, _ => none
     else none
@@ -375,7 +384,7 @@ def processCtxObj (c : Ctx) (ms : List (Str × Json)) : Option Ctx :=
     match getKey kLanguage ms with
     | none => some c1.lang
     | some .null => some none
-    | some (.str s) => some (some s)
+    | some (.str s) => if langOK s then some (some s) else none
     | some _ => none
   langR.bind fun lang =>
   let c2 : Ctx := { c1 with vocab, lang }
@@ -487,6 +496,7 @@ def evalValueObj (c : Ctx) (ms : List (Str × Json)) : Option (Option T) :=
     | none =>
       match getKey kLanguage ms with
       | some (.str l) =>
+        if !langOK l then none else
         match v with
         | .null => some none
         | .str x => some (some (.lit x rdfLangString (some l)))
@@ -522,7 +532,7 @@ def evalId (c : Ctx) (id : Option Json) (n : Nat) : Option (T × Nat) :=
 /-- a language map: member names are the tags, values strings or arrays of strings (`null` skipped) -/
 def evalLangMap (s : T) (p : Str) (g : Option T) (ms : List (Str × Json)) : Option (List Q) :=
   (mapOpt (fun (m : Str × Json) =>
-    if m.1.head? = some cAt then none else
+    if !langOK m.1 then none else
     match m.2 with
     | .null => some []
     | .str x => some [quad s p (.lit x rdfLangString (some m.1)) g]
@@ -568,12 +578,19 @@ def nodeHead (c : Ctx) (top : Bool) (ms : List (Str × Json)) (n : Nat) : Option
   | some c' =>
     match evalId c' (getKey kId ms) n with
     | none => none
-    | some (s, n1) => some (c', s, n1, top && ms.all (fun m => m.1 == kContext || m.1 == kGraph))
+    | some (s, n1) =>
+      -- "the expanded output is a map that contains only an @graph entry": besides `@context` and
+      -- `@graph` only members that expansion drops (name not an IRI, or value `null`)
+      some (c', s, n1, top && ms.all (fun m =>
+        m.1 == kContext || m.1 == kGraph ||
+        (match m.2 with | .null => true | _ => false) ||
+        (match classifyKey c' m.1 with | .ignored => true | _ => false)))
 
-/-- items of a list must be present -/
-def listItemOK : Json → Bool
+/-- items of a list must be present; in processing mode 1.0 they must not be lists themselves -/
+def listItemOK (c : Ctx) : Json → Bool
   | .null => false
   | .arr _ => false
+  | .obj ms => c.mode11 || !hasKey kList ms
   | _ => true
 
 /-- a one-element list whose item produced `r` with subject `fresh n` -/
@@ -613,7 +630,7 @@ def evalMembers (c : Ctx) (g : Option T) (s : T) (dflt : Bool) : List (Str × Js
           else evalItem c td g s p (.obj ms') n
         | x =>
           if td.cont = .list then
-            if listItemOK x then list1Wrap s p g n (evalItem c td g (.bnode (.fresh n)) rdfFirst x (n + 1)) else none
+            if listItemOK c x then list1Wrap s p g n (evalItem c td g (.bnode (.fresh n)) rdfFirst x (n + 1)) else none
           else evalItem c td g s p x n
       | .ignored => some ([], n)
       | .outside => none
@@ -664,7 +681,7 @@ def evalItem (c : Ctx) (td : TermDef) (g : Option T) (s : T) (p : Str) (j : Json
       match ms with
       | [(_, .arr xs)] => evalList c td g s p xs n
       | [(_, .null)] => none
-      | [(_, x)] => list1Wrap s p g n (evalItem c td g (.bnode (.fresh n)) rdfFirst x (n + 1))
+      | [(_, x)] => if listItemOK c x then list1Wrap s p g n (evalItem c td g (.bnode (.fresh n)) rdfFirst x (n + 1)) else none
       | _ => none
     else if hasKey kSet ms then none
     else
@@ -680,7 +697,7 @@ def evalItem (c : Ctx) (td : TermDef) (g : Option T) (s : T) (p : Str) (j : Json
 def evalList (c : Ctx) (td : TermDef) (g : Option T) (s : T) (p : Str) : List Json → Nat → Option (List Q × Nat)
   | [], n => some ([quad s p (.iri rdfNil) g], n)
   | x :: xs, n =>
-    if !listItemOK x then none else
+    if !listItemOK c x then none else
     match evalItem c td g (.bnode (.fresh n)) rdfFirst x (n + 1) with
     | none => none
     | some (q1, n1) =>
@@ -692,7 +709,7 @@ def evalList (c : Ctx) (td : TermDef) (g : Option T) (s : T) (p : Str) : List Js
 def evalCells (c : Ctx) (td : TermDef) (g : Option T) (cell : T) : List Json → Nat → Option (List Q × Nat)
   | [], n => some ([quad cell rdfRest (.iri rdfNil) g], n)
   | x :: xs, n =>
-    if !listItemOK x then none else
+    if !listItemOK c x then none else
     match evalItem c td g (.bnode (.fresh n)) rdfFirst x (n + 1) with
     | none => none
     | some (q1, n1) =>
